@@ -8,7 +8,7 @@
 From Coq Require Import ZArith List Bool Arith Lia Sorting.Sorted.
 From Flap Require Import Model.Num Model.Search Model.TripHistory Model.Promises Model.Predictor Model.Engine Model.Bot Model.Sim
   Proofs.PromisesP Proofs.PromisesFrameP Proofs.TableP Proofs.UpdateAllP Proofs.BackfillP Proofs.HistoryP
-  Proofs.HistoryEngineP Proofs.BotPlanP Proofs.BotDayP.
+  Proofs.HistoryEngineP Proofs.BotPlanP Proofs.BotDayP Proofs.EngineInv Proofs.TrialP.
 Import ListNotations.
 Open Scope Z_scope.
 
@@ -594,6 +594,92 @@ Proof.
   split; [reflexivity|unfold SecondsInDay; lia].
 Qed.
 
+
+(** ---------- the trial period: while the simulation does not debit, every balance stays zero ---------- *)
+Section Trial.
+Hypothesis Hz : kltb N (k0 N) (k0 N) = false.
+
+Definition sop_nondebit (x : sop) : Prop := match x with SCheckin _ _ _ d => d = false | _ => True end.
+
+Lemma sop_apply_TZb (e : engine) (x : sop) : sop_nondebit x -> TZb (e_table e) -> TZb (e_table (sop_apply e x)).
+Proof.
+  intros Hn Ht. destruct x as [k f now debit|k fs te now|now fit|p]; cbn [sop_apply].
+  - exact (e_apply_TZb Hz e (OSubmit k [f] now debit) Hn Ht).
+  - destruct (engine_propose e k fs te now) as [pp| |]; [|exact Ht|exact Ht].
+    exact (e_apply_TZb Hz e (OMake k pp now) I Ht).
+  - exact (e_apply_TZb Hz e (OUpdate now fit) I Ht).
+  - exact (e_apply_TZb Hz e (OSetParams p) I Ht).
+Qed.
+
+Lemma s_run_TZb xs : forall e : engine, Forall sop_nondebit xs -> TZb (e_table e) -> TZb (e_table (s_run e xs)).
+Proof.
+  induction xs as [|x r IH]; intros e Hall Ht; [exact Ht|]. inversion Hall as [|? ? H1 Hr]; subst.
+  unfold s_run. cbn [fold_left]. apply IH; [exact Hr|]. apply sop_apply_TZb; assumption.
+Qed.
+
+Lemma sim_plans_nondebit d calls : forall (e : engine) (bots : list sbot),
+  Forall sop_nondebit (snd (sim_plans dist d e bots calls)).
+Proof.
+  induction calls as [|[i ch] r IH]; intros e bots; cbn [sim_plans]; [constructor|].
+  destruct (nth_error bots i) as [b|]; [|apply IH].
+  unfold sim_plan_bot at 1. destruct (existsb _ _).
+  - specialize (IH (sop_apply e (SPlan (sb_key b) (s_plan_flights dist ch) 0 (d * SecondsInDay)))).
+    match goal with |- context [sim_plans dist d ?e1 ?b1 r] => specialize (IH b1); destruct (sim_plans dist d e1 b1 r) as [[e2 bots2] xs2] end.
+    cbn [snd app] in *. constructor; [exact I|exact IH].
+  - specialize (IH e (set_nth bots i b)). destruct (sim_plans dist d e (set_nth bots i b) r) as [[e2 bots2] xs2].
+    cbn [snd app] in *. exact IH.
+Qed.
+
+Lemma sim_submit_journeys_nondebit k rin durin today : forall e : engine,
+  Forall sop_nondebit (snd (sim_submit_journeys dist e k today false rin durin)).
+Proof.
+  induction today as [|j r IH]; intros e; cbn [sim_submit_journeys]; [constructor|].
+  match goal with |- context [sim_submit_journeys dist ?e1 k r false rin durin] =>
+    specialize (IH e1); destruct (sim_submit_journeys dist e1 k r false rin durin) as [[e2 more] xs] end.
+  cbn [snd] in *. constructor; [reflexivity|exact IH].
+Qed.
+
+Lemma sim_submit_nondebit d rin durin bots : forall e : engine,
+  Forall sop_nondebit (snd (sim_submit dist d e bots false rin durin)).
+Proof.
+  induction bots as [|b r IH]; intros e; cbn [sim_submit]; [constructor|].
+  pose proof (sim_submit_journeys_nondebit (sb_key b) (rin (sb_key b)) (durin (sb_key b))
+                (filter (journey_today d) (sb_pend b)) e) as H1.
+  destruct (sim_submit_journeys dist e (sb_key b) (filter (journey_today d) (sb_pend b)) false (rin (sb_key b)) (durin (sb_key b)))
+    as [[e1 newj] xs1].
+  specialize (IH e1). destruct (sim_submit dist d e1 r false rin durin) as [[e2 r'] xs2].
+  cbn [snd] in *. apply Forall_app. split; assumption.
+Qed.
+
+Lemma sim_day_nondebit d (s : sim N) (pd : pop_day N) : pd_debit pd = false ->
+  Forall sop_nondebit (snd (sim_day dist d s pd)).
+Proof.
+  intros Hd. unfold sim_day. rewrite Hd.
+  pose proof (sim_plans_nondebit d (pd_calls pd) (sop_apply (s_eng s) (SUpdate (d * SecondsInDay) (pd_fit pd))) (s_bots s)) as H2.
+  destruct (sim_plans dist d _ (s_bots s) (pd_calls pd)) as [[e2 bots2] xs2].
+  pose proof (sim_submit_nondebit d (pd_rin pd) (pd_durin pd) bots2 e2) as H3.
+  destruct (sim_submit dist d e2 bots2 false (pd_rin pd) (pd_durin pd)) as [[e3 bots3] xs3].
+  cbn [snd] in *. destruct (pd_params pd) as [p'|]; cbn [snd].
+  - constructor; [exact I|]. apply Forall_app. split; [exact H2|]. apply Forall_app. split; [exact H3|]. constructor; [exact I|constructor].
+  - constructor; [exact I|]. apply Forall_app. split; [exact H2|]. apply Forall_app. split; [exact H3|constructor].
+Qed.
+
+Lemma sim_run_nondebit (days : list (pop_day N)) : forall d (s : sim N),
+  Forall (fun pd => pd_debit pd = false) days -> Forall sop_nondebit (sim_run dist d s days).
+Proof.
+  induction days as [|pd r IH]; intros d s Hall; cbn [sim_run]; [constructor|].
+  inversion Hall as [|? ? H1 Hr]; subst. pose proof (sim_day_nondebit d s pd H1) as HD.
+  destruct (sim_day dist d s pd) as [s' xs]. cbn [snd] in HD. apply Forall_app. split; [exact HD|apply IH, Hr].
+Qed.
+
+(** while the simulation does not debit (the trial days) every stored balance is zero after any number of days of
+    the whole population: nobody can be grounded and the daily update credits nobody *)
+Theorem sim_trial_balances_zero (days : list (pop_day N)) d (s : sim N) :
+  Forall (fun pd => pd_debit pd = false) days -> TZb (e_table (s_eng s)) ->
+  TZb (e_table (s_run (s_eng s) (sim_run dist d s days))).
+Proof. intros Hall Ht. apply s_run_TZb; [apply sim_run_nondebit, Hall|exact Ht]. Qed.
+
+End Trial.
 
 (** ---------- the hypotheses decided by computation ---------- *)
 Definition thparams_eqb (a b : thparams) : bool :=
